@@ -202,6 +202,9 @@ func c07Sched(c *fw.Ctx) {
 		if st.Deadlines > 0 {
 			c.HarnessError("C07 %s: %d executions hit the watchdog", off.Name, st.Deadlines)
 		}
+		if st.Nondeterministic {
+			c.HarnessError("C07 %s: replaying the default schedule gave a different execution", off.Name)
+		}
 	}
 }
 
